@@ -27,6 +27,8 @@
 #include <tulz/threading/ThreadPool.h>
 #include <tulz/threading/Thread.h>
 
+#include "../painted.h"
+
 using verif::ev;
 
 // ThreadPool deletes its PooledThread objects through `Thread*` although Thread has no virtual destructor
@@ -78,9 +80,13 @@ struct FunctorArg {
     void operator()(int k) { if (k != id * 7) ev("BADARG " + std::to_string(id)); body(id); }
 };
 
+static unsigned char g_paint = 0;
+
 static void runOne(int maxThreads, const std::vector<std::string> &ops) {
     g_submitted.clear(); g_destroyed.clear(); g_gen.clear();
-    auto *pool = new tulz::ThreadPool();
+    // the pool lives in painted storage (harness/painted.h): a member a constructor forgets has a known value
+    verif::Painted<tulz::ThreadPool> poolBox(g_paint);
+    auto *pool = poolBox.get();
     {
         auto &S = verif::Sched::I();
         std::unique_lock<decltype(S.G)> lk(S.G);   // (the token `mutex` is remapped in this translation unit)
@@ -125,7 +131,6 @@ static void runOne(int maxThreads, const std::vector<std::string> &ops) {
         for (size_t i = 1; i < S.ts.size(); i++) if (S.ts[i].st != verif::Sched::FIN) left += " " + std::to_string(i);
         if (!left.empty()) { S.log("leftover" + left); S.log("end leftover"); std::fflush(stdout); _exit(4); }
     }
-    delete pool;
 }
 
 int main() {
@@ -149,6 +154,7 @@ int main() {
         if (mode == "seed") seed = std::stoull(rest.at(0));
         else for (auto &x : rest) script.push_back(std::stoi(x));
         verif::Sched::I().begin(mode == "seed", seed, script, pts);
+        g_paint = verif::paintFor(cfg);
         runOne(maxThreads, ops);
         verif::Sched::I().end();
         std::puts("end ok");
